@@ -578,6 +578,138 @@ func (g *gen) realFont() {
 	}
 }
 
+// encodeForms writes a simple glyph from per-point deltas with the encoding
+// form of every coordinate fixed by the caller (0 = same as previous, needs
+// delta 0; 1 = short vector, needs |delta| <= 255; 2 = 16-bit delta) and the
+// flag array compressed maximally: every run of identical flag bytes becomes
+// one flag byte with REPEAT and a count of up to 255.
+type dpoint struct {
+	dx, dy int
+	fx, fy int
+	on     bool
+}
+
+func encodeForms(dps []dpoint, ends []int, ins []byte) ([]byte, []glyf.Contour) {
+	var out []byte
+	for _, e := range ends {
+		out = append(out, byte(e>>8), byte(e))
+	}
+	out = append(out, byte(len(ins)>>8), byte(len(ins)))
+	out = append(out, ins...)
+	flags := make([]byte, len(dps))
+	var xb, yb []byte
+	one := func(d, form int, short, same byte, buf *[]byte) byte {
+		switch form {
+		case 0:
+			return same
+		case 1:
+			f := short
+			if d >= 0 {
+				f |= same
+			} else {
+				d = -d
+			}
+			*buf = append(*buf, byte(d))
+			return f
+		}
+		*buf = append(*buf, byte(uint16(int16(d))>>8), byte(uint16(int16(d))))
+		return 0
+	}
+	pts := make([]glyf.Point, len(dps))
+	x, y := 0, 0
+	for i, p := range dps {
+		var f byte
+		if p.on {
+			f = 0x01
+		}
+		f |= one(p.dx, p.fx, 0x02, 0x10, &xb)
+		f |= one(p.dy, p.fy, 0x04, 0x20, &yb)
+		flags[i] = f
+		x += p.dx
+		y += p.dy
+		pts[i] = glyf.Point{X: funit.Int16(x), Y: funit.Int16(y), OnCurve: p.on}
+	}
+	for i := 0; i < len(flags); {
+		j := i + 1
+		for j < len(flags) && flags[j] == flags[i] && j-i < 256 {
+			j++
+		}
+		if j-i == 1 {
+			out = append(out, flags[i])
+		} else {
+			out = append(out, flags[i]|0x08, byte(j-i-1))
+		}
+		i = j
+	}
+	out = append(out, xb...)
+	out = append(out, yb...)
+	cs := make([]glyf.Contour, len(ends))
+	start := 0
+	for i, e := range ends {
+		cs[i] = append(glyf.Contour{}, pts[start:e+1]...)
+		start = e + 1
+	}
+	return out, cs
+}
+
+// directed stream: long runs of identical flag bytes, so that the flag array
+// carries repeat counts 253, 254, 255 (and 255 followed by a further run)
+func (g *gen) repeatRuns() {
+	type form struct {
+		name   string
+		fx, fy int
+		dx, dy func(i int) int
+	}
+	zero := func(int) int { return 0 }
+	forms := []form{
+		{"same-same", 0, 0, zero, zero},
+		{"shortpos-same", 1, 0, func(int) int { return 1 }, zero},
+		{"long-shortneg", 2, 1, func(i int) int { return 300 - 600*(i&1) }, func(int) int { return -1 }},
+		{"same-long", 0, 2, zero, func(i int) int { return 1000 - 2000*(i&1) }},
+	}
+	other := []dpoint{{dx: 5, dy: -7, fx: 1, fy: 1, on: true}, {dx: 400, dy: 0, fx: 2, fy: 0, on: false}, {dx: 0, dy: 3, fx: 1, fy: 2, on: true}}
+	for _, run := range []int{254, 255, 256, 257, 300, 511, 512, 513, 600} {
+		for _, fm := range forms {
+			for _, on := range []bool{true, false} {
+				for pos := 0; pos < 3; pos++ { // run first / in the middle / last
+					for _, multi := range []bool{false, true} {
+						var dps []dpoint
+						if pos > 0 {
+							dps = append(dps, other...)
+						}
+						for i := 0; i < run; i++ {
+							dps = append(dps, dpoint{dx: fm.dx(i), dy: fm.dy(i), fx: fm.fx, fy: fm.fy, on: on})
+						}
+						if pos < 2 {
+							dps = append(dps, other...)
+						}
+						n := len(dps)
+						ends := []int{n - 1}
+						if multi {
+							ends = []int{1, n / 2, n - 2, n - 1}
+						}
+						var ins []byte
+						if run%2 == 1 {
+							ins = []byte{0xb0, 0x01}
+						}
+						e, cs := encodeForms(dps, ends, ins)
+						line := simpleLine(len(ends), e)
+						st, back, bins := specDecode(len(ends), e)
+						if st != specOK || !contoursEqual(back, cs) || !bytes.Equal(bins, ins) {
+							g.selfcheck(line, "specification decoder does not read back the directed repeat-run glyph")
+							continue
+						}
+						lab := fmt.Sprintf("repeat-run:%s", fm.name)
+						g.add(line, "simple:repeat-run", lab, fmt.Sprintf("repeat-run:len%d", run))
+						padded := append(append([]byte{}, e...), 0)
+						g.add(vlib.Line(vlib.Atom("rmpad"), vlib.Int(len(ends)), vlib.Hex(padded)), "rmpad:repeat-run")
+					}
+				}
+			}
+		}
+	}
+}
+
 // Gen writes the run for the given tier.
 func Gen(run *vlib.Run, seed uint64, tier string) {
 	run.Rule = "case = one call of encodeLoca/decodeLoca/decodeGlyph/removePadding/Glyphs.Encode/glyf.Decode/SimpleGlyph.Decode/Components/FixComponents; " +
@@ -600,6 +732,9 @@ func Gen(run *vlib.Run, seed uint64, tier string) {
 			g.compositeCases(combo)
 		}
 	}
+
+	// directed: repeat counts 253..255 in the flag array
+	g.repeatRuns()
 
 	// exhaustive: every flag byte on one- and two-point glyphs (all short/long/
 	// same/repeat combinations), with enough and with too few coordinate bytes
